@@ -173,6 +173,8 @@ pub(crate) fn add_str_find<W, R, T>(
             let haystack = string.substr(start_ind, None);
             let found_idx = haystack
                 .find(needle.as_str())
+                // the byte offset in the haystack, as a number of code points
+                .map(|i| haystack[..i].chars().count())
                 .map(|i| ManagedXValue::new(XValue::Int((i + start_ind).into()), rt.clone()))
                 .transpose()?;
             Ok(manage_native!(XOptional { value: found_idx }, rt))
@@ -209,6 +211,8 @@ pub(crate) fn add_str_rfind<W, R, T>(
             let haystack = string.substr(0, end_ind);
             let found_idx = haystack
                 .rfind(needle.as_str())
+                // the byte offset in the haystack, as a number of code points
+                .map(|i| haystack[..i].chars().count())
                 .map(|i| ManagedXValue::new(XValue::Int(i.into()), rt.clone()))
                 .transpose()?;
             Ok(manage_native!(XOptional { value: found_idx }, rt))
